@@ -6,10 +6,11 @@ pub uninterp spec fn str_bytes(s: Seq<char>) -> Seq<u8>;
 pub uninterp spec fn is_utf8(b: Seq<u8>) -> bool;
 pub uninterp spec fn f64_bits(f: f64) -> u64;
 
-pub open spec fn le16(x: u16) -> Seq<u8> { vstd::bytes::spec_u16_to_le_bytes(x) }
+// u16: written out (low byte first) because this vstd proves no from/to round-trip lemma for u16
+pub open spec fn le16(x: u16) -> Seq<u8> { seq![(x & 0xff) as u8, (x >> 8) as u8] }
 pub open spec fn le32(x: u32) -> Seq<u8> { vstd::bytes::spec_u32_to_le_bytes(x) }
 pub open spec fn le64(x: u64) -> Seq<u8> { vstd::bytes::spec_u64_to_le_bytes(x) }
-pub open spec fn from_le16(b: Seq<u8>) -> u16 { vstd::bytes::spec_u16_from_le_bytes(b) }
+pub open spec fn from_le16(b: Seq<u8>) -> u16 { (b[0] as u16) | ((b[1] as u16) << 8) }
 pub open spec fn from_le32(b: Seq<u8>) -> u32 { vstd::bytes::spec_u32_from_le_bytes(b) }
 pub open spec fn from_le64(b: Seq<u8>) -> u64 { vstd::bytes::spec_u64_from_le_bytes(b) }
 
